@@ -91,7 +91,7 @@ class Backend_get_resource:
 
 @contract("xandikos.web.XandikosBackend.create_collection",
           params={"self": "obj:xandikos.web.XandikosBackend", "relpath": "str"},
-          returns="obj:xandikos.web.Collection", may_raise=["FileExistsError", "FileNotFoundError", "ValueError"],
+          returns="obj:xandikos.web.Collection", may_raise=["FileExistsError", "FileNotFoundError"],
           effects=[["create_collection", "relpath"]], effects_ok=[["created", "relpath"]])
 class Backend_create_collection:
     """C13: whatever path MKCOL / MKCALENDAR / principal creation pass in, the repository is
@@ -113,3 +113,19 @@ class Backend_create_collection:
           may_raise=["FileExistsError", "FileNotFoundError"], assumed=True)
 class TreeGitStore_create_c:
     """os.mkdir(path) + dulwich Repo.init(path): touches only `path` (ASSUMED for dulwich)."""
+
+
+@contract("xandikos.store.git.GitStore.destroy", params={"self": "obj:xandikos.store.git.GitStore"},
+          modifies=["fs()"], effects=[["store_destroyed", "self"]])
+class GitStore_destroy_c:
+    def ensures(self):
+        return effect_names() == ["Rmtree"] and effect_arg(0, 1) == self.path
+
+
+@contract("xandikos.web.StoreBasedCollection.destroy", params={"self": "obj:xandikos.web.Collection"},
+          modifies=["fs()"], effects=[["destroyed", "self"]])
+class StoreBasedCollection_destroy_c:
+    """Removes exactly the collection's own directory (RFC 2518 8.6.2: recursively)."""
+
+    def ensures(self):
+        return effect_names() == ["store_destroyed"] and effect_arg(0, 1) == self.store
